@@ -540,6 +540,10 @@ class ObservableResource(Resource, metaclass=abc.ABCMeta):
                 # servobs._trigger in the meantime.
                 response = servobs._trigger.result()
                 servobs._trigger = asyncio.get_running_loop().create_future()
+                # Whether the trigger just taken was marked as the last one: a
+                # later trigger(..., is_last=True) that comes in while the
+                # rendering below is under way has its own turn in the loop.
+                marked_last = servobs._late_deregister
 
                 if response is None:
                     response = await self.render(pipe.request)
@@ -547,7 +551,7 @@ class ObservableResource(Resource, metaclass=abc.ABCMeta):
                 # If block2 were to happen here, we'd store the full response
                 # here, and pick out block2:0.
 
-                is_last = servobs._late_deregister or not response.code.is_successful()
+                is_last = marked_last or not response.code.is_successful()
                 if not is_last:
                     next_observation_number += 1
                     response.opt.observe = next_observation_number
